@@ -277,7 +277,17 @@ func (p *printer) body(m *Message) {
 	for _, e := range m.Enums {
 		p.enum(e)
 	}
-	if len(m.ExtRanges) > 0 && len(m.ExtRangeOpts) > 0 {
+	if m.ExtSplit && len(m.ExtRanges) > 1 {
+		// one extensions statement per range, each with (a copy of) the same options
+		for _, r := range m.ExtRanges {
+			p.ranges("extensions", []Range{r}, MaxField)
+			if len(m.ExtRangeOpts) > 0 {
+				p.toks = p.toks[:len(p.toks)-1]
+				p.compactOpts(m.ExtRangeOpts)
+				p.stmtEnd()
+			}
+		}
+	} else if len(m.ExtRanges) > 0 && len(m.ExtRangeOpts) > 0 {
 		// extensions 1 to 5, 9 [opts];
 		p.ranges("extensions", m.ExtRanges, MaxField)
 		p.toks = p.toks[:len(p.toks)-1] // drop the ";"
